@@ -132,6 +132,14 @@ def check(tier, seed):
         if not V.crash_violation(ck, err, os.path.join(V.WORK, "c11_main.out"), hs, lambda h: run_impl([h], "crash")[0], "mux manager + MultiClientConn harness"):
             ck.violation({"kind": "harness", "log": err, "broken": "C11 harness"}, "harness failed: " + err[:300], no_input=True)
         return ck.finish()
+    # a registered session whose Open() does not return: the dial parked on it must not hold up the next session-list update
+    pout = os.path.join(V.WORK, "c11_park.out")
+    if os.path.exists(pout):
+        os.remove(pout)
+    rc, out = V.go_test("transport/mux", GO, "^TestVerifMccParkedDial$", env={"VERIF_OUT": pout}, timeout=300, replace=REPLACE)
+    pline = open(pout).read().strip() if rc == 0 and os.path.exists(pout) else "harness failed: " + out[-600:]
+    park_ok = pline == "PARK entered=1 update=ok can=ok rpc=0"
+    ck.obligation("while a dial is parked inside a live session's Open(), the next session-list update is applied, the state stays readable and calls resume over the other session", park_ok, pline)
     diffs, mon, distinct, rpcs = [], [], set(), 0
     for i, h in enumerate(hs):
         b = monitor(h, impl[i])
@@ -156,6 +164,9 @@ def check(tier, seed):
     ck.obligation("correspondence: MultiClientConn's dialable keys / CanMakeCalls = Mcc model replaying the observed table changes", not diffs, "%d differ" % len(diffs))
     ck.obligation("monitor: dialable endpoints = registered sessions after every update; RPCs succeed over surviving sessions, report unavailable with none, resume with a new one", not mon, "%d histories" % len(mon))
     ck.log("%d histories, %d RPCs, %d differ from model, %d monitor hits" % (len(hs), rpcs, len(diffs), len(mon)))
+    if not park_ok and not mon:
+        ck.violation({"kind": "park", "impl": pline, "verdict": "a dial parked in a session's Open() held up the connection list (want PARK entered=1 update=ok can=ok rpc=0)"},
+                     "C11: with a dial parked on session 0 and session 1 added: " + pline)
     if mon:
         i, b = mon[0]
         ck.violation({"kind": "history", "history": hs[i], "impl": impl[i], "verdict": b[0]}, b[0][:300])
@@ -172,6 +183,12 @@ def check(tier, seed):
 
 
 def replay(data):
+    if data.get("kind") == "park":
+        pout = os.path.join(V.WORK, "c11_parkr.out")
+        rc, out = V.go_test("transport/mux", GO, "^TestVerifMccParkedDial$", env={"VERIF_OUT": pout}, timeout=300, replace=REPLACE)
+        pline = open(pout).read().strip() if rc == 0 and os.path.exists(pout) else out[-600:]
+        print(pline)
+        return 0 if pline == "PARK entered=1 update=ok can=ok rpc=0" else 1
     if "history" not in data:
         print("nothing to execute: " + "; ".join(data.get("broken", [])))
         return 1
